@@ -14,7 +14,8 @@ use std::collections::HashMap;
 #[derive(Clone, PartialEq, Eq, Hash, Debug)]
 pub enum Node {
     In(u32),
-    Const(BigRat),
+    Const(BigRat), // Zero::zero(), One::one() and constants built by the harness
+    Cast(BigRat),  // NumCast::from(<primitive>): `cast(2)`, `cast(0.5f64)`, `cast(points.len())`
     Eps,    // approx::AbsDiffEq::default_epsilon / Float::epsilon
     MaxRel, // approx::RelativeEq::default_max_relative
     Un(&'static str, u32),
@@ -88,7 +89,7 @@ pub fn node(i: u32) -> Node {
 
 pub fn konst(i: u32) -> Option<BigRat> {
     match node(i) {
-        Node::Const(r) => Some(r),
+        Node::Const(r) | Node::Cast(r) => Some(r),
         _ => None,
     }
 }
